@@ -173,11 +173,20 @@ func (c *compressor) compressZstd(uncompressed []byte) (compressed []byte, err e
 // decompressZstd decompress the given data using the zstd algorithm
 func (c *compressor) decompressZstd(compressed []byte) (decompressed []byte, err error) {
 
-	r := bytes.NewReader(compressed)
-	zstdDecoder, err := zstd.NewReader(r)
+	// Compress never produces an empty frame sequence (an empty input still gets a frame),
+	// so zero bytes is damaged data, not "no frames"
+	if len(compressed) == 0 {
+		return nil, errors.New("zstd: empty compressed data")
+	}
+
+	// DecodeAll needs no stream: a decoder created on a reader starts a background stream
+	// decoder over the same data that is never drained or closed; it leaks its goroutines and
+	// buffers and can take every block decoder of the pool, which blocks DecodeAll forever
+	zstdDecoder, err := zstd.NewReader(nil)
 	if err != nil {
 		return nil, err
 	}
+	defer zstdDecoder.Close()
 
 	decompressed, err = zstdDecoder.DecodeAll(compressed, nil)
 	return decompressed, err
